@@ -137,3 +137,12 @@ Proof. intros H. cbn [qconn_step]. rewrite H. cbn. split; reflexivity. Qed.
 Lemma qconn_closed_raises c f : q_opened c = false ->
   snd (qconn_step c QWait) = ORaises /\ snd (qconn_step c (QSend f)) = ORaises.
 Proof. intros H. cbn [qconn_step]. rewrite H. cbn. auto. Qed.
+
+(* ---- non-vacuity: premises are inhabited, results are non-degenerate (closed by computation) ------------------ *)
+(* C16: a reachable state with one frame delivered, one queued, one in the thread's hands and one still in the socket *)
+Definition c16_steps : list cstep :=
+  [SOpen; SPeerSend [1]; SPeerSend [2]; SPeerSend [3]; SPeerSend [4]; SThread; SThread; SThread; SThread; SThread; SThread; SGet; SThread; SThread].
+Example c16_reachable :
+  let c := fst (conn_run (conn0 false) c16_steps) in
+  c_delivered c = [[1]] /\ c_queue c = [[2]] /\ inflight c = [[3]] /\ c_sockbuf c = [[4]] /\ c_sent c = [[1]; [2]; [3]; [4]].
+Proof. vm_compute. repeat split. Qed.
